@@ -744,6 +744,14 @@ impl Session {
             }
             got += n;
         }
+        // PostgreSQL looks at the type byte before it trusts the length: an unknown type is
+        // "invalid frontend message type", FATAL, connection closed (it does not wait for the
+        // announced number of bytes)
+        if !b"QPBEDCSHXdcfFp".contains(&hdr[0]) {
+            use std::io::Write;
+            let _ = self.stream.write_all(&proto::error_response("FATAL", "08P01", &format!("invalid frontend message type {}", hdr[0])));
+            return Err(std::io::Error::new(std::io::ErrorKind::InvalidData, format!("invalid frontend message type {}", hdr[0])));
+        }
         let len = u32::from_be_bytes([hdr[1], hdr[2], hdr[3], hdr[4]]) as usize;
         if len < 4 || len - 4 > max_len {
             return Err(std::io::Error::new(std::io::ErrorKind::InvalidData, format!("bad message length {} for type {:?}", len, hdr[0] as char)));
@@ -1103,6 +1111,15 @@ impl Session {
                 let (name, n) = proto::cstr_at(&m.body, 0);
                 let (query, n2) = proto::cstr_at(&m.body, n);
                 let mut types = vec![];
+                // PostgreSQL: a negative parameter count, or fewer type OIDs in the message than
+                // announced, is "invalid message format" / "insufficient data left in message"
+                if n2 + 2 <= m.body.len() {
+                    let c16 = i16::from_be_bytes([m.body[n2], m.body[n2 + 1]]);
+                    if c16 < 0 || n2 + 2 + (c16 as usize) * 4 > m.body.len() {
+                        self.ext_error("08P01", "invalid message format");
+                        return Flow::Continue;
+                    }
+                }
                 if n2 + 2 <= m.body.len() {
                     let cnt = i16::from_be_bytes([m.body[n2], m.body[n2 + 1]]) as usize;
                     let mut i = n2 + 2;
